@@ -297,6 +297,8 @@ def quick_work(shard, n4, n3, n2, seed):
                 part.bad.append((ver, lo, hi))
             if b != a:
                 vis = True
+        if part.evaluations & 63 == 0:
+            part.reserve("pair", {"ver": ver, "lo": lo, "hi": hi})      # sample re-run in other interpreter modes
         part.evaluations += 1
         part.classes["v%s pairs" % ver] += 1
         if vis:
